@@ -1,6 +1,6 @@
 #!/bin/bash
 # tools/intake_round.sh <NUM_OFFSET> [J]      (development aid, not a registered command)
-# Takes in the seeded changes that sub-agents left in /tmp/wt-<CID>/out/{patch,demo,meta}<N>.* and
+# Takes in the seeded changes that sub-agents left in $WTPREFIX<CID>/out/ (default prefix /tmp/wt-), i.e. /tmp/wt-<CID>/out/{patch,demo,meta}<N>.* and
 # that are not filed yet under /verif/seeded/<CID>-<N+NUM_OFFSET>/:
 #   1. confirms each in the sub-agent's own scratch worktree: the demo passes on the unchanged tree,
 #      fails with the change (debug, else release), the 45 repository tests pass with the change;
@@ -10,11 +10,11 @@
 #   3. files it with meta.json (confirmed, caught_by, caught_by_own_check).
 # Only worktrees marked with out/DONE (the sub-agent has reported back) are looked at.
 # Scratch copies are removed at the end.
-OFFSET=${1:?offset}; J=${2:-4}
+OFFSET=${1:?offset}; J=${2:-4}; WTP=${WTPREFIX:-/tmp/wt-}
 export CARGO_NET_OFFLINE=true
 res1() { grep -E '^test result' | head -1; }
 confirm_wt() {
-  CID=$1; WT=/tmp/wt-$CID
+  CID=$1; WT=$WTP$CID
   for N in 1 2 3; do
     [ -f $WT/out/patch$N.diff ] && [ -f $WT/out/demo$N.rs ] || continue
     [ -d /verif/seeded/$CID-$((N+OFFSET)) ] && continue
@@ -45,10 +45,10 @@ PY
     )
   done
 }
-for d in /tmp/wt-C*; do [ -f $d/out/DONE ] && confirm_wt ${d#/tmp/wt-} & done
+for d in ${WTP}C*; do [ -f $d/out/DONE ] && confirm_wt ${d#$WTP} & done
 wait
 : > /root/ir-list.txt
-for d in /tmp/wt-C*; do CID=${d#/tmp/wt-}; for N in 1 2 3; do
+for d in ${WTP}C*; do CID=${d#$WTP}; for N in 1 2 3; do
   [ -f $d/out/confirm$N.json ] || continue
   [ -d /verif/seeded/$CID-$((N+OFFSET)) ] && continue
   if grep -q '"ok": true' $d/out/confirm$N.json; then echo "$CID $N" >> /root/ir-list.txt; else echo "REJECTED $CID $N: $(cat $d/out/confirm$N.json)"; fi
@@ -64,15 +64,15 @@ done
 worker() {
   k=$1
   awk -v k=$k -v j=$J 'NR % j == k % j' /root/ir-list.txt | while read CID N; do
-    P=/tmp/wt-$CID/out/patch$N.diff
-    cd /root/ir-repo-$k && git checkout -q -- . && git apply $P || { echo "$CID $N APPLY-FAILED" > /tmp/wt-$CID/out/caught$N.txt; continue; }
+    P=$WTP$CID/out/patch$N.diff
+    cd /root/ir-repo-$k && git checkout -q -- . && git apply $P || { echo "$CID $N APPLY-FAILED" > $WTP$CID/out/caught$N.txt; continue; }
     CAUGHT=""
     for id in C01 C02 C03 C04 C05 C06 C07 C08 C09 C10 C11 C12 C13 C14 C15 C16 C17 C18 C19 C20; do
       out=$(cd /root/ir-verif-$k && VERIF_SEED=0 FFV_THREADS=8 FFV_REPO_SRC=/root/ir-repo-$k/src ./check $id 2>&1); rc=$?
-      if [ $rc -eq 1 ]; then CAUGHT="$CAUGHT $id"; echo "$out" | grep -A1 '^VIOLATION' | head -2 | cut -c1-400 > /tmp/wt-$CID/out/viol$N-$id.txt
-      elif [ $rc -ne 0 ]; then echo "$id exit $rc: $(echo "$out" | tail -2 | cut -c1-300)" >> /tmp/wt-$CID/out/trouble$N.txt; fi
+      if [ $rc -eq 1 ]; then CAUGHT="$CAUGHT $id"; echo "$out" | grep -A1 '^VIOLATION' | head -2 | cut -c1-400 > $WTP$CID/out/viol$N-$id.txt
+      elif [ $rc -ne 0 ]; then echo "$id exit $rc: $(echo "$out" | tail -2 | cut -c1-300)" >> $WTP$CID/out/trouble$N.txt; fi
     done
-    echo "$CAUGHT" > /tmp/wt-$CID/out/caught$N.txt
+    echo "$CAUGHT" > $WTP$CID/out/caught$N.txt
     cd /root/ir-repo-$k && git checkout -q -- .
     echo "done $CID $N:$CAUGHT"
   done
@@ -80,7 +80,7 @@ worker() {
 for k in $(seq 1 $J); do worker $k & done
 wait
 while read CID N; do
-  D=/verif/seeded/$CID-$((N+OFFSET)); O=/tmp/wt-$CID/out
+  D=/verif/seeded/$CID-$((N+OFFSET)); O=$WTP$CID/out
   [ -f $O/caught$N.txt ] || continue
   mkdir -p $D; cp $O/patch$N.diff $D/patch.diff; cp $O/demo$N.rs $D/demo.rs
   python3 - "$O/meta$N.json" "$D/meta.json" "$CID" "$O/confirm$N.json" "$(cat $O/caught$N.txt)" "$(cat $O/trouble$N.txt 2>/dev/null)" <<'PY'
